@@ -43,7 +43,10 @@ type Case struct {
 	Plan            []string `json:"plan"`
 	Limit           int      `json:"limit"`            // 0 = no limiter
 	SharedCancelUs  int      `json:"shared_cancel_us"` // 0 = never
-	Yields          []int    `json:"yields,omitempty"` // microseconds to sleep at the k-th yield site hit
+	// CancelParent: the shared cancellation hits the context WithBatching was called on (a
+	// request context that ends), not a context derived from the batching context
+	CancelParent bool  `json:"cancel_parent,omitempty"`
+	Yields       []int `json:"yields,omitempty"` // microseconds to sleep at the k-th yield site hit
 }
 
 type invocation struct {
@@ -169,7 +172,15 @@ func runCase(c Case) (nt bool, classes []string, err error) {
 	if c.Limit > 0 {
 		base = cl.With(base, c.Limit)
 	}
-	shared, cancelShared := context.WithCancel(batch.WithBatching(base))
+	var shared context.Context
+	var cancelShared context.CancelFunc
+	if c.CancelParent {
+		var parent context.Context
+		parent, cancelShared = context.WithCancel(base)
+		shared = batch.WithBatching(parent)
+	} else {
+		shared, cancelShared = context.WithCancel(batch.WithBatching(base))
+	}
 	defer cancelShared()
 	anyCancel := c.SharedCancelUs > 0
 	results := make([]result, len(c.Callers))
@@ -385,6 +396,7 @@ func genCase(t *rapid.T) Case {
 	}
 	if rapid.IntRange(0, 9).Draw(t, "sharedcancel") == 0 {
 		c.SharedCancelUs = rapid.IntRange(1, 3000).Draw(t, "scus")
+		c.CancelParent = rapid.Bool().Draw(t, "cancelparent")
 	}
 	if rapid.Bool().Draw(t, "useyields") {
 		c.Yields = rapid.SliceOfN(rapid.SampledFrom([]int{0, 0, 1, 50, 300, 1200}), 0, 30).Draw(t, "yields")
